@@ -5,6 +5,7 @@ import AvroModel.Lemmas.EndToEnd
 import AvroModel.Lemmas.RoundTrip
 import AvroModel.Lemmas.NormSpec
 import AvroModel.Lemmas.ReadBudget
+import AvroModel.Lemmas.GoBudget
 import AvroModel.Props.C03
 /-!
 # C01 — Encode-then-read round trip preserves every record
@@ -158,6 +159,17 @@ theorem value_roundtrip_budget (c : Codec) (s : ASchema) (hcf : CodecFor c s) (n
     (hn : readBudget c v ≤ n') :
     read env n' c (bs ++ rest) (Codec.zero env c) = .ok (normCodec env m' c g, rest) :=
   record_exact_budget env c s hcf n n' m m' g _ _ bs bs' rest v hw ht he (roundTrip env m' m c g v ht hok) hn
+
+/-- the same with a budget computed from the written Go value alone:
+`goBudget c g = Codec.sz c + 2 * ((Codec.sz c + 1) * (GoVal.sz g + 1)) + 2` -/
+theorem value_roundtrip_go (c : Codec) (s : ASchema) (hcf : CodecFor c s) (n n' m m' : Nat) (g : GoVal)
+    (bs bs' rest : Bytes) (v : Value)
+    (hw : write env n c g = some bs) (ht : toAvro env (omits env) m c g = some v)
+    (he : encode (canonPlan v) s v = some bs') (hok : RTOk env m' c g)
+    (hn : goBudget c g ≤ n') :
+    read env n' c (bs ++ rest) (Codec.zero env c) = .ok (normCodec env m' c g, rest) :=
+  value_roundtrip_budget env c s hcf n n' m m' g bs bs' rest v hw ht he hok
+    (Nat.le_trans (readBudget_le_goBudget env _ ht) hn)
 
 /-! non-vacuity: the codec the library builds for `struct { M map[string]int64; P *string; Q *[]int32 }` with a one-entry map, a
 non-nil string pointer and a nil slice pointer (which reads back as a pointer to the empty slice) -/
@@ -376,6 +388,28 @@ theorem file_value_roundtrip {ε : Type} (cfg : EncCfg) (c : Codec) (s : ASchema
   intro g hg
   exact hdecOf g hg
 
+/-- `file_value_roundtrip` with the reader's budget bounded from the written Go values alone
+(`goBudget`): every hypothesis is about the Go values, the codec, the configuration or the header. -/
+theorem file_value_roundtrip_go {ε : Type} (cfg : EncCfg) (c : Codec) (s : ASchema) (hcf : CodecFor c s)
+    (n m m' N : Nat) (gops : List GoOp)
+    (hval : ∀ g ∈ GoOp.values gops, ∃ bs v bs', write env n c g = some bs ∧
+      toAvro env (omits env) m c g = some v ∧ encode (canonPlan v) s v = some bs' ∧ RTOk env m' c g)
+    (hN : ∀ g ∈ GoOp.values gops, goBudget c g ≤ N)
+    {X : File.Ext GoVal} {fuel : Nat} {H : File.Header} {sel : File.CodecSel}
+    (hh : File.ValidHeader X fuel cfg.header H sel (C03.recDecoder env N c)) (hs : H.sync = cfg.sync)
+    (hcomp : ∀ x, File.decompress X sel (cfg.compress x) = .ok x)
+    (hsmall : ∀ blk ∈ (specPart cfg.blockSize (writtenOps env n c gops ++ [.flush]) []).1,
+      (cfg.compress blk.flatten).length ≤ File.maxLen)
+    (hn : (GoOp.values gops).length < fuel) (hn63 : (GoOp.values gops).length < 2 ^ 63)
+    (cb : Nat → Option ε) (hcb : ∀ i, cb i = none) :
+    ∃ s' w', encRun cfg {} (writtenOps env n c gops ++ [.flush]) = (s', w', none) ∧ s'.count = 0 ∧ s'.wb = [] ∧
+      File.readFile X fuel cb w'.accepted = ⟨(GoOp.values gops).map (normCodec env m' c), .ok⟩ :=
+  file_value_roundtrip env cfg c s hcf n m m' N gops
+    (fun g hg => by
+      obtain ⟨bs, v, bs', hw, ht, he, hok⟩ := hval g hg
+      exact ⟨bs, v, bs', hw, ht, he, hok, Nat.le_trans (readBudget_le_goBudget env _ ht) (hN g hg)⟩)
+    hh hs hcomp hsmall hn hn63 cb hcb
+
 /-! Non-vacuity of `file_value_roundtrip`: three struct values (one with a nil `*[]int32`, which comes
 back as a pointer to the empty slice) written with a `Flush` in between, block size 12, read back with
 the single record budget `27 = readBudget exCodec exDatum`. -/
@@ -414,6 +448,48 @@ example : ∃ s' w', encRun exCfgV {} (writtenOps toyEnv 10 exCodec exGops ++ [.
           by simp [RTOk, exCodec, exValPlain, FieldsOk, Codec.zero, inRange], by decide +kernel⟩
       · exact ⟨exBytes, exDatum, exBytes, by decide +kernel, by rfl, by decide +kernel,
           by simp [RTOk, exCodec, exVal, FieldsOk, Codec.zero, inRange, Codec.ptrDepth], by decide +kernel⟩)
+    hh rfl (fun x => rfl) (by decide +kernel) (by decide) (by decide) (fun _ => none) (fun _ => rfl)
+
+/-! Non-vacuity of `file_value_roundtrip_go` (and of `goBudget`): the same history, the reader's budget
+`211` computed from the Go values alone. -/
+
+example : goBudget exCodec exVal = 171 ∧ goBudget exCodec exValPlain = 211 := by decide +kernel
+
+def exXG : File.Ext GoVal :=
+  { inflate := fun c => some c, unsnappy := fun c => some c, crc := fun _ => 0,
+    build := fun _ => some (C03.recDecoder toyEnv 211 exCodec) }
+
+example : ∃ s' w', encRun exCfgV {} (writtenOps toyEnv 10 exCodec exGops ++ [.flush]) = (s', w', none) ∧ s'.count = 0 ∧ s'.wb = [] ∧
+    File.readFile exXG 9 (fun _ => (none : Option Unit)) w'.accepted =
+      ⟨[exVal, exValPlain, exVal].map (normCodec toyEnv 5 exCodec), .ok⟩ := by
+  have hcf : CodecFor exCodec exSchema :=
+    .record (.cons (.map .intL) (.cons (.unionOne1 (.pointer .string)) (.cons (.pointer (.array .intI)) .nil))) rfl
+  have hh : File.ValidHeader exXG 9 exCfgV.header
+      { «meta» := File.metaOf [[(File.kSchema, [0x22]), (File.kCodec, File.vNull)]], sync := C07.exSync } .null
+      (C03.recDecoder toyEnv 211 exCodec) := by
+    refine C07.valid_mkHeader exXG _ C07.exSync 9 ?_ (by decide) (by decide) .null _ (by decide) ⟨[0x22], by decide, rfl⟩
+    intro es hes
+    simp only [List.mem_singleton] at hes
+    subst hes
+    refine ⟨by simp, by decide, ?_⟩
+    intro kv hkv
+    simp only [List.mem_cons, List.not_mem_nil, or_false] at hkv
+    rcases hkv with rfl | rfl <;> exact ⟨by decide, by decide⟩
+  exact file_value_roundtrip_go (ε := Unit) toyEnv exCfgV exCodec exSchema hcf 10 10 5 211 exGops
+    (by
+      intro g hg
+      simp only [exGops, GoOp.values, List.mem_cons, List.not_mem_nil, or_false] at hg
+      rcases hg with rfl | rfl | rfl
+      · exact ⟨exBytes, exDatum, exBytes, by decide +kernel, by rfl, by decide +kernel,
+          by simp [RTOk, exCodec, exVal, FieldsOk, Codec.zero, inRange, Codec.ptrDepth]⟩
+      · exact ⟨exBytes, exDatum, exBytes, by decide +kernel, by rfl, by decide +kernel,
+          by simp [RTOk, exCodec, exValPlain, FieldsOk, Codec.zero, inRange]⟩
+      · exact ⟨exBytes, exDatum, exBytes, by decide +kernel, by rfl, by decide +kernel,
+          by simp [RTOk, exCodec, exVal, FieldsOk, Codec.zero, inRange, Codec.ptrDepth]⟩)
+    (by
+      intro g hg
+      simp only [exGops, GoOp.values, List.mem_cons, List.not_mem_nil, or_false] at hg
+      rcases hg with rfl | rfl | rfl <;> decide +kernel)
     hh rfl (fun x => rfl) (by decide +kernel) (by decide) (by decide) (fun _ => none) (fun _ => rfl)
 
 /-- non-vacuity of `value_roundtrip_exact_budget` / `value_roundtrip_spec_budget` -/
